@@ -155,6 +155,40 @@ pub fn jobs(tier: Tier) -> Vec<Job> {
         j.split = true;
         v.push(j);
     }
+    // What a rejected attempt loaded must not leak into the same worker's next attempt (seeded
+    // change C03c, the worker-side twin of C04b/C11: journal finalised only on success): a funded
+    // sender whose first attempt is rejected on stale state, a top-up of the same account, and a
+    // transaction of that account that is skipped for lack of funds - the *fields* of the reason
+    // expose which view of the balance was used.
+    {
+        let mut ts = templates.clone();
+        ts.push(tpl("topup(e3>e4,0.2e)", eoa(3), &["e3", "e4"], |n| transfer(eoa(3), n, eoa(4), ETHER / 5)));
+        ts.push(tpl("overspend(e4>e7,5e)", eoa(4), &["e4"], |n| transfer(eoa(4), n, eoa(7), 5 * ETHER)));
+        let pick = |l: &str| ts.iter().position(|t| t.label == l).unwrap();
+        for labels in [
+            vec!["fund(e0>e4)", "dep(e4>e7)", "topup(e3>e4,0.2e)", "overspend(e4>e7,5e)"],
+            vec!["fund(e0>e4)", "dep(e4>e7)", "overspend(e4>e7,5e)"],
+            vec!["fund(e0>e4)", "overspend(e4>e7,5e)", "topup(e3>e4,0.2e)", "dep(e4>e7)"],
+            vec!["fund(e0>e4)", "dep(e4>e7)", "dep(e4>e7)"],
+        ] {
+            let seq: Vec<usize> = labels.iter().map(|l| pick(l)).collect();
+            for dn in [false, true] {
+                let mut case = build_case("c03", SpecId::CANCUN, &db, &ts, &seq).unwrap();
+                case.disable_nonce_check = dn;
+                if dn {
+                    case.name += ":nononce";
+                }
+                let mut j = validity_job(&case, &RunCfg::parallel(2), COARSE, if tier == Tier::Quick { 2 } else { 3 });
+                j.split = true;
+                v.push(j);
+                if !dn {
+                    let mut j = validity_job(&case, &RunCfg::parallel(2), FOCUS_ATTEMPT, if tier == Tier::Quick { 3 } else { 4 });
+                    j.split = true;
+                    v.push(j);
+                }
+            }
+        }
+    }
     {
         // three transactions: the third parks the other worker
         let labels = ["fund(e0>e4)", "dep(e4>e7)", "valid(e3>e7)"];
